@@ -128,9 +128,14 @@ where
     FrameFn: FnOnce(&str, u32) -> T2 + Sync,
     T2: Future<Output = Result<FrameIO, Error>>,
 {
+    // The request is read WITHOUT holding the connection's lock: a client that stalls in the middle of its request
+    // must not block readers of this connection's record (the management API, which in turn holds the registry).
+    let mut stream = ctx.write().await.take_client_stream();
+    let request = HttpRequest::read_from(&mut stream).await;
     let mut ctx_lock = ctx.write().await;
+    ctx_lock.set_client_stream(stream);
+    let request = request?;
     let socket = ctx_lock.borrow_client_stream().unwrap();
-    let request = HttpRequest::read_from(socket).await?;
     tracing::trace!("request={:?}", request);
     if request.method.eq_ignore_ascii_case("CONNECT") {
         let protocol = request.header("Proxy-Protocol", "tcp");
